@@ -344,12 +344,12 @@ func specLkAfter(kind, lk int) int {
 //@   ensures ok <==> off >= m.hdrLen+hashOff && int64(off)+16+int64(len(name)) <= int64(len(m.mapping.Data))
 //@   ensures ok ==> next != nil && v != nil
 //@   ensures ok && $private ==> le32(m.mapping.Data, int(off)+8) == uint32(len(name))|0xff000000
-//@   ensures ok && $private ==> bytes(m.mapping.Data, int(off)+16, len(name)) == name
+//@   ensures ok && $private ==> forall k int :: 0 <= k && k < len(name) ==> m.mapping.Data[int(off+16)+k] == name[k]
 //@   ensures ok && $private ==> le64(m.mapping.Data, int(off)) == old(le64(m.mapping.Data, int(off)))
 //@   ensures !ok ==> next == nil && v == nil && unchanged(m.mapping.Data)
 //@   modifies elems(m.mapping.Data)
 
-// lookup walks one bucket chain. (No ranking function exists for the walk: see KNOWN_FINDINGS.)
+// lookup walks one bucket chain; the walk is bounded by the number of records the mapping can hold.
 //@ contract (*mappedFile).lookup
 //@   requires m.mapping != nil
 //@   requires len(m.mapping.Data) < 1<<32
@@ -358,6 +358,8 @@ func specLkAfter(kind, lk int) int {
 //@   ensures $private ==> unchanged(m.mapping.Data)
 //@   loop 1: invariant headOff == m.hdrLen+hashOff+specHash(name)*4 && m.mapping != nil
 //@   loop 1: invariant $private ==> unchanged(m.mapping.Data)
+//@   loop 1: invariant 0 <= n && n <= maxLinks+1 && maxLinks == len(m.mapping.Data)/32
+//@   loop 1: decreases maxLinks+1-n
 //@   modifies elems(m.mapping.Data)
 
 // mappedHeader: fixed prefix, 4-aligned length word holding the header length
@@ -371,4 +373,21 @@ func specLkAfter(kind, lk int) int {
 //@   ensures len(meta) <= maxMetaLen ==> bytes(result0, 32, len(meta)) == meta
 //@   ensures len(meta) <= maxMetaLen ==> forall k int :: 32+len(meta) <= k && k < len(result0) ==> result0[k] == 0
 //@   ensures len(meta) <= maxMetaLen ==> 32 <= len(result0) && len(result0) <= 544 && len(result0)%32 == 0
+//@   modifies nothing
+
+// ---------------------------------------------------------------------------
+// C06: Parse is total: no panic and every loop has a ranking function, for
+// every byte string (smaller than 4 GiB, see above).
+
+//@ contract Parse
+//@   requires $private
+//@   requires len(data) < 1<<32
+//@   ensures result1 == nil ==> result0 != nil
+//@   ensures result1 != nil ==> result0 == nil
+//@   loop 1: invariant -1 <= rangeindex && rangeindex < len(lines)
+//@   loop 1: decreases len(lines)-rangeindex
+//@   loop 2: invariant i <= numHash
+//@   loop 2: decreases int(numHash)-int(i)
+//@   loop 3: invariant 0 <= n && n <= maxLinks+1
+//@   loop 3: decreases maxLinks+1-n
 //@   modifies nothing
